@@ -60,6 +60,7 @@ class Handler:
     """Module-level object whose bound methods are named on the command line (dotted path through an instance)."""
 
     async def work(self, *args, **kwargs):
+        ACTIVE.invocations.append(("handler.work runs on", "the object the path names now" if self is handler else "ANOTHER OBJECT"))
         return await work(*args, **kwargs)
 
     def on_end(self, task_id):
